@@ -465,6 +465,23 @@ func (m *Monitor) checkDotFailure(pd *parsedDot, info *invInfo, verr error) {
 			m.violate("C19", "C19.failure-root-cause", "red nodes %v are not the missing types of the invoked function or of a constructor on the path (candidates %v)", redNodes, cands)
 		}
 	}
+	// value groups in the failure picture: a group node that is drawn is linked to exactly the grouped
+	// results of the constructors that are still in the picture (members of pruned constructors go,
+	// members of failed ones stay)
+	wantMembers := map[string]int{}
+	for r := range inPic {
+		for k, idxs := range r.prod {
+			if k.Group != "" {
+				wantMembers[dotGroupID(k)] += len(idxs)
+			}
+		}
+	}
+	for id := range pd.groupNodes {
+		if got := len(pd.groupEdges[id]); got != wantMembers[id] {
+			m.violate("C19", "C19.failure-group-members", "failure picture: group %s linked to %d members, %d grouped results of failed constructors remain in the picture", id, got, wantMembers[id])
+			return
+		}
+	}
 	wantOrange := map[string]bool{}
 	for _, o := range orange {
 		for _, id := range regResultIDs(o) {
